@@ -1,2 +1,3 @@
 //! Reference models, written from the RFC text, independent of `pgp::` parsing/serialisation.
+pub mod armor;
 pub mod canon;
